@@ -16,7 +16,8 @@ EXTENDS ProxyMsg, Json, IOUtils
 Rec == ndJsonDeserialize(IOEnv.TRACE)
 
 AnsOk(r)  == \E a \in (IF r.connected THEN Acceptable(r.segs, r.term) ELSE {Bad502}) : AnsEq(r.got, a)
-FwdOk(r)  == r.connected => (r.seenok /\ FwdEq(r.seen, Forward(r.req, r.route, r.entry)))
+\* (a target that never reads the request has, by construction, not received it: nothing to compare)
+FwdOk(r)  == (r.connected /\ ~r.noread) => (r.seenok /\ FwdEq(r.seen, Forward(r.req, r.route, r.entry)))
 Ok(r)     == AnsOk(r) /\ ~r.late /\ FwdOk(r)
 \* deviations that predict exactly this observation (lateness is explained only by a predicted hang)
 Ideal(r)  == IF r.connected THEN Acceptable(r.segs, r.term) ELSE {Bad502}
